@@ -315,6 +315,66 @@ def cases(tier, rng):
         if kind == "eqchar":
             case["c"] = rng.choice(codes)
         yield case
+    # 2b. other observations of the result of a program: iteration, str(), tolist(), len(), == / != with a string of the same
+    #     length or another array, np.where between two arrays; and the same row programs on a StringArray made from the rows
+    for _ in range(6000 if big else 900):
+        enc = rng.choice(ENCS)
+        codes = list(range(len(ALPH[enc]))) if enc != "BaseEncoding" else [ord(ch) for ch in ALPH[enc]]
+        val = _rand_value(rng, codes)
+        ops, cur = [], val
+        for _ in range(rng.randint(0, 6 if big else 3)):
+            op = _rand_op(rng, cur, codes)
+            try:
+                nxt = o_apply(cur, op)
+            except Bad:
+                continue
+            ops.append(op)
+            cur = nxt
+        obs = rng.choice(["iter", "str", "tolist", "len", "eqstr", "neqchar", "where", "eqarr"])
+        case = {"op": "observe", "enc": enc, "v": _val_json(val), "ops": ops, "obs": obs, "npint": rng.random() < 0.3, "from_str": rng.random() < 0.5,
+                "vform": rng.choice(["str", "base", "enc"])}
+        if obs in ("eqstr", "where", "eqarr"):
+            if cur[0] != "flat":
+                continue
+            other = [ch if rng.random() < 0.6 else rng.choice(codes) for ch in cur[1]]
+            case["s"] = other
+            if obs == "where":
+                case["m"] = [rng.random() < 0.5 for _ in cur[1]]
+        if obs == "neqchar":
+            case["c"] = rng.choice(codes)
+        yield case
+    for _ in range(3000 if big else 500):
+        enc = rng.choice(ENCS)
+        codes = list(range(len(ALPH[enc]))) if enc != "BaseEncoding" else [ord(ch) for ch in ALPH[enc]]
+        n = rng.choice([1, 1, 2, 3, 4, 6])
+        rows = [[rng.choice(codes) for _ in range(rng.choice([0, 1, 2, 3, 5, 8]))] for _ in range(n)]
+        if rng.random() < 0.1:
+            rows = [[] for _ in rows]
+        ops, cur = [], ("rag", rows)
+        for _ in range(rng.randint(0, 5 if big else 3)):
+            if cur[0] != "rag":
+                break
+            if rng.random() < 0.25:
+                op = {"o": "concat", "w": {"t": "rag", "r": [[rng.choice(codes) for _ in range(rng.choice([0, 1, 3, 9]))] for _ in range(rng.choice([0, 1, 2]))]}}
+            else:
+                op = {"o": "index", "ix": _rand_idx(rng, len(cur[1]))}
+            try:
+                nxt = o_apply(cur, op)
+            except Bad:
+                continue
+            ops.append(op)
+            cur = nxt
+        obs = rng.choice(["tolist", "tolist", "len", "eqstr", "isin", "eqarr"])
+        case = {"op": "sa", "enc": enc, "v": _val_json(("rag", rows)), "ops": ops, "obs": obs}
+        if obs in ("eqstr", "isin"):
+            pool = (cur[1] if cur[0] == "rag" else [cur[1]]) + rows
+            case["s"] = list(rng.choice(pool)) if pool and rng.random() < 0.8 else [rng.choice(codes)]
+            case["s2"] = [rng.choice(codes) for _ in range(2)]
+        if obs == "eqarr":
+            if cur[0] != "rag":
+                continue
+            case["rows2"] = [list(r) if rng.random() < 0.6 else [rng.choice(codes) for _ in range(rng.choice([0, 1, 2, 9]))] for r in cur[1]]
+        yield case
     # 3. str_equal, split, join
     for _ in range(600 if big else 120):
         enc = rng.choice(ENCS)
@@ -330,7 +390,7 @@ def cases(tier, rng):
 
 
 def nontrivial(c):
-    if c["op"] in ("program", "eqchar", "copy_indep"):
+    if c["op"] in ("program", "eqchar", "copy_indep", "observe", "sa"):
         v = c["v"]
         rag_uneven = v["t"] == "rag" and len({len(r) for r in v["r"]}) > 1
         return len(c["ops"]) >= 2 or rag_uneven or (v["t"] == "rag" and any(len(r) == 0 for r in v["r"]))
@@ -447,6 +507,70 @@ def impl(c):
             return np.insert(v, o["i"], _build(enc, {"t": "flat", "l": o["v"]}))
         raise ValueError(k)
 
+    if op == "sa":
+        from bionumpy.string_array import string_array, StringArray
+        try:
+            sa = string_array(_build(enc, c["v"]))
+            for o in c["ops"]:
+                if o["o"] == "index":
+                    sa = sa[_np_idx(o["ix"])]
+                else:
+                    sa = np.concatenate([sa, string_array(_build(enc, o["w"]))]) if o["w"]["r"] else np.concatenate([sa, string_array(np.array([], dtype="S"))])
+                if not isinstance(sa, StringArray):
+                    return {"err": "not-a-StringArray", "type": type(sa).__name__}
+            obs = c["obs"]
+            if obs == "tolist":
+                return {"obs": sa.tolist()}
+            if obs == "len":
+                return {"obs": len(sa)}
+            if obs == "lengths":
+                L = sa.lengths
+                return {"obs": int(L) if np.ndim(L) == 0 else [int(k) for k in L]}
+            if obs == "eqstr":
+                r = sa == _text_of(c["s"], enc)
+                return {"obs": bool(r) if np.ndim(r) == 0 else [bool(b) for b in r]}
+            if obs == "isin":
+                r = np.isin(sa, [_text_of(c["s"], enc), _text_of(c["s2"], enc)])
+                return {"obs": bool(r) if np.ndim(r) == 0 else [bool(b) for b in r]}
+            if obs == "eqarr":
+                r = sa == string_array([_text_of(r2, enc) for r2 in c["rows2"]])
+                return {"obs": [bool(b) for b in r]}
+        except Exception as e:
+            return {"err": "index", "exc": type(e).__name__}
+    if op == "observe":
+        try:
+            v = _build(enc, c["v"])
+            for o in c["ops"]:
+                v = step(v, o)
+            if not (v.encoding == _enc(enc)):
+                return {"err": "encoding-changed"}
+            obs = c["obs"]
+            if obs == "iter":
+                return {"obs": [e.to_string() for e in v]}
+            if obs == "str":
+                return {"obs": str(v)}
+            if obs == "tolist":
+                return {"obs": v.tolist()}
+            if obs == "len":
+                return {"obs": len(v)}
+            if obs == "neqchar":
+                r = (v != chr(_dec_table(enc)[c["c"]]))
+                if isinstance(v, EncodedRaggedArray):
+                    return {"obs": {"t": "rag", "r": [[bool(b) for b in row] for row in r.tolist()]}}
+                if v.data.ndim == 0:
+                    return {"obs": {"t": "scalar", "c": bool(r)}}
+                return {"obs": {"t": "flat", "l": [bool(b) for b in r]}}
+            if obs == "eqstr":
+                return {"obs": [bool(b) for b in (v == _text_of(c["s"], enc))]}
+            if obs == "eqarr":
+                return {"obs": [bool(b) for b in (v == _build(enc, {"t": "flat", "l": c["s"]}))]}
+            if obs == "where":
+                w = np.where(np.array(c["m"], dtype=bool), v, _build(enc, {"t": "flat", "l": c["s"]}))
+                if not (w.encoding == _enc(enc)):
+                    return {"err": "encoding-changed"}
+                return {"obs": w.to_string()}
+        except Exception as e:
+            return {"err": "index", "exc": type(e).__name__}
     if op == "copy_indep":
         try:
             v = _build(enc, c["v"])
@@ -519,6 +643,11 @@ def oracle(c):
             r2 = o_apply(r, asg)
     except Bad:
         return SKIP      # out-of-range index / ill-shaped assignment: the property quantifies over in-range programs only
+    if op in ("observe", "sa"):
+        try:
+            return {"obs": _expect_obs(c, r)}
+        except Bad:
+            return SKIP
     if op == "copy_indep":
         if r[0] == "scalar":
             return SKIP
@@ -529,6 +658,60 @@ def oracle(c):
     return {"text": _val_json(r)}
 
 
+
+def _expect_obs(c, r):
+    """the observation `c["obs"]` of a result value r = (kind, x) with characters as ASCII codes; Bad = outside the domain"""
+    kind, x = r
+    obs = c["obs"]
+    dec = _dec_table(c["enc"])
+    txt = lambda l: "".join(chr(ch) for ch in l)
+    if c["op"] == "sa":
+        if obs == "tolist":
+            return txt(x) if kind == "flat" else [txt(row) for row in x]
+        if obs == "len":
+            if kind != "rag":
+                raise Bad()
+            return len(x)
+        if obs == "lengths":
+            if kind != "rag":
+                raise Bad()          # .lengths of a single (0-d) element is not an operation of the property
+            return [len(row) for row in x]
+        s1 = [dec[k] for k in c.get("s", [])]
+        if obs == "eqstr":
+            return (x == s1) if kind == "flat" else [row == s1 for row in x]
+        if obs == "isin":
+            pool = [s1, [dec[k] for k in c["s2"]]]
+            return (x in pool) if kind == "flat" else [row in pool for row in x]
+        if obs == "eqarr":
+            return [row == [dec[k] for k in r2] for row, r2 in zip(x, c["rows2"])]
+        raise Bad()
+    if obs == "iter":
+        if kind == "scalar":
+            raise Bad()
+        return [txt([ch]) for ch in x] if kind == "flat" else [txt(row) for row in x]
+    if obs == "str":
+        if kind == "rag":
+            raise Bad()
+        return txt(x) if kind == "flat" else chr(x)
+    if obs == "tolist":
+        return txt(x) if kind == "flat" else (chr(x) if kind == "scalar" else [txt(row) for row in x])
+    if obs == "len":
+        if kind == "scalar":
+            raise Bad()
+        return len(x)
+    if obs == "neqchar":
+        ch = dec[c["c"]]
+        return _val_json(r, lambda y: y != ch)
+    if kind != "flat":
+        raise Bad()
+    other = [dec[k] for k in c["s"]]
+    if obs in ("eqstr", "eqarr"):
+        return [a == b for a, b in zip(x, other)]
+    if obs == "where":
+        return txt([a if m else b for a, b, m in zip(x, other, c["m"])])
+    raise Bad()
+
+
 def _strip(x):
     return {k: v for k, v in x.items() if k != "exc"} if isinstance(x, dict) else x
 
@@ -537,8 +720,26 @@ def agree(c, got, exp):
     return core.canon(_strip(got)) == core.canon(exp)
 
 
+def _val_of_json(j):
+    return ("flat", j["l"]) if j["t"] == "flat" else (("rag", j["r"]) if j["t"] == "rag" else ("scalar", j["c"]))
+
+
 def agree_model(c, got, m):
+    if c["op"] in ("observe", "sa") and isinstance(m, dict) and "text" in m:
+        try:
+            m = {"obs": _expect_obs(c, _val_of_json(m["text"]))}
+        except Bad:
+            return True
     return core.canon(_strip(got)) == core.canon(m)
+
+
+def agree_spec(c, sp, exp):
+    if c["op"] in ("observe", "sa") and isinstance(sp, dict) and "text" in sp:
+        try:
+            sp = {"obs": _expect_obs(c, _val_of_json(sp["text"]))}
+        except Bad:
+            return True
+    return core.canon(sp) == core.canon(exp)
 
 
 def model_request(c):
@@ -548,11 +749,19 @@ def model_request(c):
         if isinstance(oracle(c), core.Skip):
             return None
         return dict(c, dec=_dec_table(c["enc"]))
+    if c["op"] in ("observe", "sa"):
+        if isinstance(oracle(c), core.Skip):
+            return None
+        return dict(c, op="program", dec=_dec_table(c["enc"]))
     return c
 
 
 def finding_key(c, got, exp):
-    if c["op"] not in ("program", "eqchar", "copy_indep"):
+    if c["op"] == "sa":
+        return "StringArray:" + c["obs"]
+    if c["op"] == "observe" and not any(o["o"] == "colSlice" and o["s"] < 0 and (o["a"] is not None or o["b"] is not None) for o in c["ops"]):
+        return "observe:" + c["obs"]
+    if c["op"] not in ("program", "eqchar", "copy_indep", "observe"):
         return c["op"]
     if any(o["o"] == "colSlice" and o["s"] < 0 and (o["a"] is not None or o["b"] is not None) for o in c["ops"]):
         return "colSlice:negative-step-with-explicit-bounds"
